@@ -19,3 +19,58 @@ Print Assumptions C19_intersection_len_spec.
 Theorem C19_equal_ranges_iff : forall a b d, py_equal_ranges a b d = true <-> Z.abs (fst a - fst b) <= d /\ Z.abs (snd a - snd b) <= d.
 Proof. exact equal_ranges_iff. Qed.
 Print Assumptions C19_equal_ranges_iff.
+
+From IQ Require Import CorrSupport Intervals IntervalsSpec IntervalsProofs Profile.
+
+(* read_coverage_fraction: for strictly separated lists the numerator is the total pairwise intersection, the denominator |read| *)
+Theorem C19_coverage_fraction_spec : forall R I, sd R -> sd I -> R <> [] -> coverage_fraction R I = Ok (pairs R I, total R).
+Proof. exact coverage_fraction_spec. Qed.
+Print Assumptions C19_coverage_fraction_spec.
+
+(* jaccard_similarity: (intersection, union) = (sum of pairwise intersections, |A| + |B| - intersection); neither assert can fire *)
+Theorem C19_jaccard_spec : forall A B, sd A -> sd B -> (A <> [] \/ B <> []) ->
+  jaccard A B = Ok (pairs A B, total A + total B - pairs A B) /\ 0 < total A + total B - pairs A B.
+Proof. exact jaccard_spec. Qed.
+Print Assumptions C19_jaccard_spec.
+
+(* sum_intervals_to_point = number of covered positions strictly below the point *)
+Theorem C19_sum_to_point_spec : forall l pos, sd l -> l <> [] -> sum_to_point l pos = Ok (below l pos).
+Proof. exact sum_to_point_spec. Qed.
+Print Assumptions C19_sum_to_point_spec.
+
+(* exons built from any well-formed start-ordered intron list are well-formed, increasing and disjoint (reused by C03/C14) *)
+Theorem C19_get_exons_wf : forall r introns, mono introns ->
+  Forall (fun i => fst r - 1 <= fst i /\ fst i <= snd r + 1) introns -> fst r <= snd r + 2 -> sd (get_exons r introns).
+Proof. exact get_exons_wf. Qed.
+Print Assumptions C19_get_exons_wf.
+
+(* junction/exon conversion round-trips for blocks separated by at least one base *)
+Theorem C19_junctions_exons_roundtrip : forall blocks a, gappedP (a::blocks) ->
+  get_exons (fst a, snd (last (a::blocks) a)) (jfb (a::blocks)) = a :: blocks.
+Proof. exact junctions_exons_roundtrip. Qed.
+Print Assumptions C19_junctions_exons_roundtrip.
+
+(* binary searches, partial correctness: an index returned by the loop is the unique interval position of the coordinate *)
+Theorem C19_bin_search_sound : forall fuel l pos ind step i, bs_loop fuel l pos ind step = Some i -> 0 <= i ->
+  i + 1 < Z.of_nat (length l) /\ fst (nthz l i (0,0)) <= pos < fst (nthz l (i + 1) (0,0)).
+Proof. exact bs_loop_sound. Qed.
+Print Assumptions C19_bin_search_sound.
+Theorem C19_bin_search_rev_sound : forall fuel l pos ind step i, bsr_loop fuel l pos ind step = Some i -> 1 <= i ->
+  i < Z.of_nat (length l) /\ snd (nthz l (i - 1) (0,0)) < pos <= snd (nthz l i (0,0)).
+Proof. exact bsr_loop_sound. Qed.
+Print Assumptions C19_bin_search_rev_sound.
+
+(* gene-side profile sweep = declarative characterisation (a known feature is compared with the first read feature reaching it) *)
+Theorem C19_gene_profile_char : forall delta init K R rpos0, starts_sorted K -> gp delta init K R rpos0 = map (fun k => value delta init k R rpos0) K.
+Proof. exact gp_char. Qed.
+Print Assumptions C19_gene_profile_char.
+
+(* the stated corners, as witnesses on the executable models *)
+Example C19_profile_shadowed_match_refuted :
+  overlapping_profile (fun r k => py_equal_ranges r k 2) (fun reg f => py_contains reg f) 2 [(3,9)] (3,9) [(1,3);(5,9)] (1,9) (-1) (-1)
+  = Some ([-1], [0; -1], (0, 1)).
+Proof. vm_compute. reflexivity. Qed.
+Example C19_jaccard_example : jaccard [(1,4);(8,9)] [(3,8)] = Ok (3, 9).
+Proof. vm_compute. reflexivity. Qed.
+Example C19_truncate_outside_guard_refuted : truncate_to_polya [(3,3);(4,5);(6,6)] 4 2 = Ok [(2,4)].
+Proof. vm_compute. reflexivity. Qed.
